@@ -268,6 +268,14 @@ func (p *c19) Run(tier string, seed int64, idx int) core.CaseResult {
 	root := &snode{kw: "container", kids: []*snode{c.sn}}
 	r := core.CaseRng(seed, "C19fz", idx)
 	var encodings [][]byte
+	// what the encoders returned, kept as it was handed over (not copied) next to a copy made at once: the bytes
+	// belong to the caller, whatever is encoded afterwards
+	type c19Kept struct {
+		enc        encoding.EncType
+		tree       int
+		out, taken []byte
+	}
+	var kept []c19Kept
 	for ti, t := range c.trees {
 		want := c19CanonStr(root, t)
 		if strings.Contains(want, "9007199254740993") || strings.Contains(want, "18446744073709551615") || strings.Contains(want, "9223372036854775807") {
@@ -283,6 +291,7 @@ func (p *c19) Run(tier string, seed int64, idx int) core.CaseResult {
 				continue
 			}
 			encodings = append(encodings, bytes)
+			kept = append(kept, c19Kept{enc, ti, bytes, append([]byte{}, bytes...)})
 			for _, validate := range []bool{true, false} {
 				tree, err, pmsg, stack := c19Decode(ms, enc, bytes, validate)
 				in2 := in + "---- encoded\n" + string(bytes) + fmt.Sprintf("\n(validation=%v)", validate)
@@ -300,6 +309,14 @@ func (p *c19) Run(tier string, seed int64, idx int) core.CaseResult {
 					res.Fail("C19/round-trip-differs/"+encNames[enc]+"/"+c19DiffClass(want, got), in2, firstDiff(want, got)+"\n(- original, + decoded)")
 				}
 			}
+		}
+	}
+	for _, k := range kept {
+		res.Ev("encodings_compared_after_later_encodings", 1)
+		if string(k.out) != string(k.taken) {
+			res.Fail("C19/encoding-changes-after-it-was-returned/"+encNames[k.enc], fmt.Sprintf("%s---- tree %d, encoding %s\n%s", schemaText, k.tree, encNames[k.enc], c.trees[k.tree].str()),
+				fmt.Sprintf("as returned:\n%s\nafter the following encodings, the same slice:\n%s", core.Trunc(string(k.taken), 1500), core.Trunc(string(k.out), 1500)))
+			break
 		}
 	}
 	// ---- trees that do not conform (a mandatory node deleted, ...): every decoder, used as it comes, refuses
